@@ -300,3 +300,167 @@ Proof.
   apply sub_loop_np in H.
   destruct (sub_loop MAX_SUBMESSAGES (skipn 20 v)) as [[l|e|x] c]; cbn [fst is_panic] in *; auto.
 Qed.
+
+(* ------------------------------------------------- the class is exactly the panics *)
+Definition succeeds {A} (k : nat) (p : parser A) : Prop :=
+  forall s, Z.of_nat k <= len s -> exists a, fst (p s) = Ok (a, skipn k s).
+
+Lemma succeeds_read_n : forall n, succeeds n (read_n n).
+Proof.
+  intros n s H. unfold read_n. rewrite shorter_spec.
+  destruct (Z.ltb_spec (len s) (Z.of_nat n)); [lia|]. eexists; reflexivity.
+Qed.
+Lemma succeeds_ret : forall A B (p : parser A) (g : A -> B) k, succeeds k p -> succeeds k (pbind p (fun a => pret (g a))).
+Proof.
+  intros A B p g k Hp s H. destruct (Hp s H) as (a & E). exists (g a).
+  rewrite (pbind_ok _ _ p _ s a (skipn k s) E). reflexivity.
+Qed.
+Lemma succeeds_bind : forall A B (p : parser A) (f : A -> parser B) k1 k2,
+  succeeds k1 p -> (forall a, succeeds k2 (f a)) -> succeeds (k1 + k2) (pbind p f).
+Proof.
+  intros A B p f k1 k2 Hp Hf s H. destruct (Hp s ltac:(lia)) as (a & E).
+  destruct (Hf a (skipn k1 s)) as (b & E2). { rewrite len_skipn. unfold len in *. lia. }
+  exists b. rewrite (pbind_ok _ _ p f s a (skipn k1 s) E), E2, skipn_skipn. reflexivity.
+Qed.
+Lemma succeeds_u32 : forall le, succeeds 4 (read_u32 le).
+Proof. intros; unfold read_u32; apply succeeds_ret, succeeds_read_n. Qed.
+Lemma succeeds_i32 : forall le, succeeds 4 (read_i32 le).
+Proof. intros; unfold read_i32; apply succeeds_ret, succeeds_read_n. Qed.
+Lemma succeeds_sn : forall le, succeeds 8 (read_sn le).
+Proof. intros; unfold read_sn. apply (succeeds_bind _ _ _ _ 4 4); [apply succeeds_i32|intros ?; apply succeeds_ret, succeeds_u32]. Qed.
+Lemma succeeds_eid : succeeds 4 read_entity_id.
+Proof. unfold read_entity_id. apply (succeeds_bind _ _ _ _ 3 1); [apply succeeds_read_n|intros ?; apply succeeds_ret, succeeds_read_n]. Qed.
+
+Lemma read_words_succeeds : forall le n s, 4 * Z.of_nat n <= len s ->
+  fst (read_words le n s) = Ok (words_at le n s, skipn (4 * n) s).
+Proof.
+  intros le n; induction n; intros s H; [reflexivity|].
+  cbn [read_words words_at].
+  destruct (succeeds_i32 le s ltac:(lia)) as (w & E).
+  pose proof (read_i32_value _ _ _ _ E) as Ew.
+  rewrite (pbind_ok _ _ (read_i32 le) _ s w (skipn 4 s) E).
+  rewrite (pbind_ok _ _ (read_words le n) _ (skipn 4 s) (words_at le n (skipn 4 s)) (skipn (4 * n) (skipn 4 s))).
+  - cbn [pret fst]. rewrite Ew, skipn_skipn. do 3 f_equal. lia.
+  - apply IHn. rewrite len_skipn. unfold len in *. lia.
+Qed.
+
+Lemma fn_collect_panics : forall base ws n i, 0 <= i ->
+  (exists j, i <= j < i + Z.of_nat n /\ (256 <= j \/ (bit_set ws j = true /\ u32_max < base + j))) ->
+  is_panic (fn_collect base ws n i) = true.
+Proof.
+  intros base ws n; induction n; intros i Hi (j & Hj & Hc); [lia|]. cbn [fn_collect].
+  destruct (Z.leb_spec 8 (i / 32)); [reflexivity|].
+  assert (Rec : j <> i -> is_panic (fn_collect base ws n (i + 1)) = true).
+  { intros Hne. apply IHn; [lia|]. exists j. split; [lia|exact Hc]. }
+  destruct (bit_set ws i) eqn:Eb.
+  - destruct (Z.gtb_spec (base + i) u32_max); [reflexivity|].
+    assert (j <> i) by (intros ->; destruct Hc as [Hc|[_ Hc]]; lia).
+    specialize (Rec H1). destruct (fn_collect base ws n (i + 1)); cbn in *; congruence.
+  - apply Rec. intros ->. destruct Hc as [Hc|[Hc _]]; [lia|congruence].
+Qed.
+
+Lemma In_iota_inv : forall n j, In j (iota n) -> 0 <= j < n.
+Proof.
+  intros n j H. unfold iota in H. apply in_map_iff in H as (k & <- & Hk). apply in_seq in Hk. lia.
+Qed.
+
+Lemma read_fnset_panics : forall le s,
+  let base := dec_int le (firstn 4 s) in
+  let nb := dec_int le (firstn 4 (skipn 4 s)) in
+  let m := Z.min 8 (div_ceil32 nb) in
+  8 + 4 * m <= len s ->
+  ((256 <? nb) || existsb (fun i => bit_set (pad8 (words_at le (Z.to_nat m) (skipn 8 s))) i && (u32_max <? base + i))
+                          (iota (Z.min nb 256))) = true ->
+  is_panic (fst (read_fnset le s)) = true.
+Proof.
+  intros le s base nb m Hl Hbad. unfold read_fnset.
+  assert (Hm : 0 <= m -> True) by auto.
+  assert (L8 : 8 <= len s \/ len s < 8) by lia.
+  destruct (Z.le_gt_cases 0 m) as [Hm0|Hm0].
+  2:{ (* m < 0 means nb is very negative: nothing is bad *)
+      exfalso. unfold m, div_ceil32 in Hm0. apply orb_true_iff in Hbad as [Hb|Hb].
+      - apply Z.ltb_lt in Hb. lia.
+      - apply existsb_exists in Hb as (i & Hi & _). apply In_iota_inv in Hi. lia. }
+  destruct (succeeds_u32 le s ltac:(lia)) as (b0 & E0).
+  pose proof (read_u32_value _ _ _ _ E0) as Eb0. fold base in Eb0.
+  rewrite (pbind_ok _ _ (read_u32 le) _ s b0 (skipn 4 s) E0).
+  destruct (succeeds_u32 le (skipn 4 s)) as (n0 & E1). { rewrite len_skipn. unfold len in *. lia. }
+  pose proof (read_u32_value _ _ _ _ E1) as En0. fold nb in En0.
+  rewrite (pbind_ok _ _ (read_u32 le) _ (skipn 4 s) n0 (skipn 4 (skipn 4 s)) E1).
+  rewrite skipn_skipn. change (4 + 4)%nat with 8%nat. subst b0 n0.
+  unfold read_bitmap. fold m.
+  assert (Ew : fst (read_words le (Z.to_nat m) (skipn 8 s)) = Ok (words_at le (Z.to_nat m) (skipn 8 s), skipn (4 * Z.to_nat m) (skipn 8 s))).
+  { apply read_words_succeeds. rewrite len_skipn. unfold len in *. lia. }
+  set (ws := words_at le (Z.to_nat m) (skipn 8 s)) in *.
+  set (rest := skipn (4 * Z.to_nat m) (skipn 8 s)) in *.
+  rewrite (pbind_ok _ _ _ _ (skipn 8 s) (pad8 ws) rest).
+  2:{ rewrite (pbind_ok _ _ (read_words le (Z.to_nat m)) _ (skipn 8 s) ws rest Ew). reflexivity. }
+  rewrite (pbind_ok _ _ (ptick _) _ rest tt rest) by reflexivity.
+  assert (P : is_panic (fn_collect base (pad8 ws) (Z.to_nat (Z.min nb 257)) 0) = true).
+  { apply fn_collect_panics; [lia|]. apply orb_true_iff in Hbad as [Hb|Hb].
+    - apply Z.ltb_lt in Hb. exists 256. split; [lia|left; lia].
+    - apply existsb_exists in Hb as (i & Hi & Hc). apply In_iota_inv in Hi. apply andb_true_iff in Hc as [Hc1 Hc2].
+      apply Z.ltb_lt in Hc2. exists i. split; [lia|right; auto]. }
+  destruct (fn_collect base (pad8 ws) (Z.to_nat (Z.min nb 257)) 0) as [l|e|x] eqn:Ec; try discriminate P.
+  rewrite (pbind_panic _ _ (plift (Panic x)) _ rest x) by reflexivity. reflexivity.
+Qed.
+
+Lemma nack_frag_bad_panics : forall fl v, fnset_bad (is_le fl) v = true -> is_panic (fst (parse_nack_frag fl v)) = true.
+Proof.
+  intros fl v H. unfold fnset_bad in H. rewrite !shorter_spec in H.
+  destruct (Z.ltb_spec (len v) 24) as [L|L]; [discriminate|].
+  set (s := skipn 16 v) in *.
+  destruct (Z.ltb_spec (len s) (8 + 4 * Z.min 8 (div_ceil32 (dec_int (is_le fl) (firstn 4 (skipn 4 s)))))) as [L2|L2]; [discriminate|].
+  unfold parse_nack_frag. rewrite run_panic.
+  destruct (succeeds_eid v ltac:(lia)) as (rid & E1).
+  rewrite (pbind_ok _ _ read_entity_id _ v rid (skipn 4 v) E1).
+  destruct (succeeds_eid (skipn 4 v)) as (wid & E2). { rewrite len_skipn. unfold len in *. lia. }
+  rewrite (pbind_ok _ _ read_entity_id _ (skipn 4 v) wid (skipn 4 (skipn 4 v)) E2).
+  destruct (succeeds_sn (is_le fl) (skipn 4 (skipn 4 v))) as (sn & E3). { rewrite !len_skipn. unfold len in *. rewrite ?skipn_length. lia. }
+  rewrite (pbind_ok _ _ (read_sn (is_le fl)) _ _ sn (skipn 8 (skipn 4 (skipn 4 v))) E3).
+  rewrite !skipn_skipn. change (4 + 4 + 8)%nat with 16%nat. fold s.
+  pose proof (read_fnset_panics (is_le fl) s L2 H) as P.
+  destruct (fst (read_fnset (is_le fl) s)) as [a|e|x] eqn:Ef; try discriminate P.
+  rewrite (pbind_panic _ _ (read_fnset (is_le fl)) _ s x Ef). reflexivity.
+Qed.
+
+Lemma parse_sub_bad_panics : forall id fl sublen v,
+  nf_bad (id, fl, sublen, v) = true -> is_panic (fst (parse_sub id fl sublen v)) = true.
+Proof.
+  intros id fl sublen v H. unfold nf_bad in H. destruct (Z.eqb_spec id ID_NACK_FRAG) as [->|]; [|discriminate].
+  unfold parse_sub. change (ID_NACK_FRAG =? ID_ACKNACK) with false. change (ID_NACK_FRAG =? ID_DATA) with false.
+  change (ID_NACK_FRAG =? ID_DATA_FRAG) with false. change (ID_NACK_FRAG =? ID_GAP) with false.
+  change (ID_NACK_FRAG =? ID_HEARTBEAT) with false. change (ID_NACK_FRAG =? ID_HEARTBEAT_FRAG) with false.
+  change (ID_NACK_FRAG =? ID_INFO_DST) with false. change (ID_NACK_FRAG =? ID_INFO_REPLY) with false.
+  change (ID_NACK_FRAG =? ID_INFO_SRC) with false. change (ID_NACK_FRAG =? ID_INFO_TS) with false.
+  change (ID_NACK_FRAG =? ID_NACK_FRAG) with true. cbv iota.
+  apply nack_frag_bad_panics; exact H.
+Qed.
+
+Lemma sub_loop_bad_panics : forall fuel v,
+  existsb nf_bad (visits fuel v) = true -> is_panic (fst (sub_loop fuel v)) = true.
+Proof.
+  induction fuel as [|k IH]; intros v H; [discriminate|].
+  destruct v as [|id [|fl [|b2 [|b3 v']]]]; try discriminate.
+  cbn [sub_loop visits] in *. cbv zeta in *.
+  destruct (shorter v' (sublen_of fl b2 b3)); [discriminate|].
+  cbn [existsb] in H.
+  pose proof (parse_sub_bad_panics id fl (sublen_of fl b2 b3) v') as Hp.
+  destruct (parse_sub id fl (sublen_of fl b2 b3) v') as [[sm|e|x] c]; cbn [fst] in *.
+  - destruct (nf_bad _) eqn:Eb; [specialize (Hp eq_refl); discriminate|]. cbn [orb] in H.
+    apply IH in H. destruct (sub_loop k _) as [[l|e|x] c']; cbn [fst is_panic] in *; auto; discriminate.
+  - destruct (nf_bad _) eqn:Eb; [specialize (Hp eq_refl); discriminate|]. cbn [orb] in H.
+    apply IH in H. destruct (sub_loop k _) as [r c']; cbn [fst] in *; auto.
+  - reflexivity.
+Qed.
+
+Theorem parse_message_panics_in_class : forall v,
+  C07_known_fnset v = true -> is_panic (parse_message v) = true.
+Proof.
+  intros v H. unfold parse_message, parse_message_cost.
+  unfold C07_known_fnset, message_visits in H.
+  destruct (shorter v 20); [discriminate|].
+  destruct (negb (list_eqb (firstn 4 v) RTPS_MAGIC)); [discriminate|].
+  apply sub_loop_bad_panics in H.
+  destruct (sub_loop MAX_SUBMESSAGES (skipn 20 v)) as [[l|e|x] c]; cbn [fst is_panic] in *; auto.
+Qed.
